@@ -42,6 +42,10 @@ pub struct Force {
     pub bitreg: Option<u8>,
     pub bitreg_val: Option<u8>,
     pub areg: Option<u8>,
+    /// C08: explicit operand address / upper byte of the address register / @aa:8 operand
+    pub target: Option<u32>,
+    pub upper: Option<u32>,
+    pub abs: Option<u8>,
 }
 
 #[derive(Clone, Debug)]
@@ -85,21 +89,25 @@ pub fn build(e: &mut Ent, f: &Force) -> (StepCase, Tag) {
             BitTgt::Reg(opreg)
         }
         TgtK::Ind => {
-            let a = e.data_addr(&[Region::Ram, Region::Dram, Region::Vector], 1, 1);
-            er[areg as usize] = a | e.upper_byte();
-            patches.push((a, vec![value]));
+            let a = f.target.map(|t| t & 0xff_ffff).unwrap_or_else(|| e.data_addr(&[Region::Ram, Region::Dram, Region::Vector], 1, 1));
+            er[areg as usize] = a | f.upper.unwrap_or_else(|| e.upper_byte());
+            if crate::refmodel::exec::mapped(a) && !crate::engine::emu::is_peripheral_reg(a) && !(0xfee000..=0xfee0ff).contains(&a) {
+                patches.push((a, vec![value]));
+            }
             addr = Some(a);
             BitTgt::Ind(areg)
         }
         TgtK::A8 => {
-            let mut aa = e.u8();
+            let mut aa = f.abs.unwrap_or_else(|| e.u8());
             let mut guard = 0;
             while !abs8_ok(aa) && guard < 300 {
                 aa = aa.wrapping_add(0x2b);
                 guard += 1;
             }
             let a = 0xffff00 | aa as u32;
-            patches.push((a, vec![value]));
+            if crate::refmodel::exec::mapped(a) {
+                patches.push((a, vec![value]));
+            }
             addr = Some(a);
             BitTgt::A8(aa)
         }
